@@ -14,8 +14,8 @@ MIN_STR = 8      # room for the replay's unique "v<id>_" prefix
 
 
 class SyncWorld(World):
-    def __init__(self, I, ctx, nrep, uuids=(1,), props=('p', 'q'), ts_range=None, max_str=MAX_STR):
-        super().__init__(I, ctx)
+    def __init__(self, I, ctx, nrep, uuids=(1,), props=('p', 'q'), ts_range=None, max_str=MAX_STR, keep_env=False):
+        super().__init__(I, ctx, keep_env)
         self.max_str = max_str
         self.uuids, self.props = list(uuids), list(props)
         self.server = ModelServer(self)
